@@ -19,7 +19,14 @@
 (*        bl |-> bl[k] = NotificationsSinceHeight(k) as ids, <<ERR>> on err*)
 (*        sync |-> index of the sync peer or 0, cur |-> 1 if "current",    *)
 (*        disc |-> per peer: disconnect requested]                         *)
-(* act = [op, p, batch, k, res]                                            *)
+(* act = [op, p, batch, k, res, nf]                                        *)
+(*   Headers: k = 0 plain; 1 = the driver made the batch write fail;       *)
+(*   10 + c = the process died after c store mutations; 20 + j / 30 + j =  *)
+(*   the driver made the j-th RollbackLastBlock call of the message on the *)
+(*   block-header / filter-header store fail.                              *)
+(* C04 (slice): SyncPeerIsConnected - the sync peer the client reports is  *)
+(*   none or a peer that is connected by the environment's own             *)
+(*   NewPeer/DonePeer steps (abs.conn).                                    *)
 (***************************************************************************)
 EXTENDS Integers, Sequences, FiniteSets, Universe
 
@@ -86,8 +93,18 @@ FailsCheckpoint(b) ==
                         /\ b[i] # CpId(Hgt(b[i]))
 
 ----------------------------------------------------------------------------
-AbsInit == [n |-> 0]
-AbsNext(a, act, o2) == [n |-> a.n + 1]
+\* abs.conn: the peers that are connected, by the environment's own steps alone
+\* (NewPeer / DonePeer; a restart of the process drops every connection)
+AbsInit == [n |-> 0, conn |-> {}]
+AbsNext(a, act, o2) ==
+  [n |-> a.n + 1,
+   conn |-> IF act.op = "NewPeer" THEN a.conn \cup {act.p}
+            ELSE IF act.op = "DonePeer" THEN a.conn \ {act.p}
+            ELSE IF act.op \in {"Restart", "Recover"} THEN {}
+            ELSE a.conn]
+
+\* A step in which the driver itself made a store call fail (I/O fault).
+Faulted(act) == act.op = "Headers" /\ (act.k = 1 \/ act.k >= 20)
 
 C01Viol(o2) ==
   IF ~Readable(o2) THEN {"StoreReadable"}
@@ -135,19 +152,23 @@ C02Viol(o, act, o2) ==
               IN  SumWork(SubSeq(b, i, Len(b))) <= SumWork(rem)
         THEN {"ReorgNotHeavier"} ELSE {})
   \* C02 quantifies over inputs and histories, not over I/O faults: a step in
-  \* which the driver made a store write fail (act.k = 1, thorough tier) may
-  \* leave a reorganisation half done (old branch removed, new branch written
-  \* only in part); what must hold there is C01 (the stored chain is valid) and
+  \* which the driver made a store call fail (Faulted: the batch write, or one
+  \* of the per-block rollback calls; faults / thorough tiers) may leave a
+  \* reorganisation half done (old branch removed in part or in full, new branch
+  \* not written or only in part); what must hold there is C01 (the stored chain is valid) and
   \* the clauses above (nothing foreign, nothing below a checkpoint, nothing
   \* lighter OFFERED), not "never less work".
-  \cup (IF rem # <<>> /\ add = <<>> /\ ~(act.op = "Headers" /\ (FailsCheckpoint(b) \/ act.k = 1))
+  \cup (IF rem # <<>> /\ add = <<>> /\ ~(act.op = "Headers" /\ (FailsCheckpoint(b) \/ Faulted(act)))
         THEN {"IllegalTruncation"} ELSE {})
-  \cup (IF SumWork(C2) < SumWork(C) /\ ~(act.op = "Headers" /\ (FailsCheckpoint(b) \/ act.k = 1))
+  \cup (IF SumWork(C2) < SumWork(C) /\ ~(act.op = "Headers" /\ (FailsCheckpoint(b) \/ Faulted(act)))
         THEN {"WorkDecreased"} ELSE {})
   \cup (IF ext /\ listened /\ C2 # C \o nb THEN {"ExtensionAdoptedInFull"} ELSE {})
   \cup (IF hv /\ ~ext /\ listened /\ C2 # hvExpected THEN {"HeavierBranchAdoptedInFull"} ELSE {})
 
-C19Viol(o, act, o2) ==
+\* alive = FALSE: the handler panicked on an injected store error (the documented
+\* reaction of the reorganisation path) - the events it delivered before that are
+\* judged like any others, but a dead process cannot be asked for a backlog.
+C19Viol(o, act, o2, alive) ==
   IF ~Readable(o) \/ ~Readable(o2) THEN {}
   ELSE
   LET C   == Chain(o)
@@ -188,7 +209,7 @@ C19Viol(o, act, o2) ==
   \cup (IF \E i \in 1..Len(o2.ev) : \E j \in 1..Len(o2.ev) :
               i < j /\ o2.ev[i][1] = 1 /\ o2.ev[j][1] = 2
         THEN {"EventOrder"} ELSE {})
-  \cup (IF fOK /\ \E k \in 1..Len(o2.bl) :
+  \cup (IF alive /\ fOK /\ \E k \in 1..Len(o2.bl) :
               k <= ft2 /\ o2.bl[k] # SubSeq(C2, k + 2, ft2 + 1)
         THEN {"BacklogExact"} ELSE {})
 
@@ -205,12 +226,20 @@ RecoverViol(act, o2) ==
                       IF h <= o2.f.tip[2] + 1 THEN o2.f.byH[h] = o2.b.byH[h] ELSE o2.f.byH[h] = NF
              THEN {} ELSE {"CrashFilterConsistent"})
 
+\* C04 (slice): a client whose sync peer has already disconnected asks nobody for
+\* headers and ignores every other peer's until it is restarted.
+C04Viol(a2, o2) ==
+  IF o2.sync # 0 /\ o2.sync \notin a2.conn THEN {"SyncPeerIsConnected"} ELSE {}
+
 Viol(a, o, act, a2, o2) ==
   IF act.res = "crash" THEN {}               \* the process is dead: nothing to observe
   ELSE IF act.op = "Recover" THEN RecoverViol(act, o2)
-  ELSE IF act.res = "panic" THEN {"HandlerPanicked"}
+  \* a panic on a store error the driver injected is the code's documented reaction
+  \* ("Rollback failed"), not a defect: the step is judged on what it left behind
+  ELSE IF act.res = "panic" /\ ~Faulted(act) THEN {"HandlerPanicked"}
   ELSE IF act.res = "hang" THEN {"HandlerHung"}    \* the handler did not return within the step bound
-  ELSE C01Viol(o2) \cup C02Viol(o, act, o2) \cup C19Viol(o, act, o2)
+  ELSE C01Viol(o2) \cup C02Viol(o, act, o2) \cup C19Viol(o, act, o2, act.res # "panic")
+       \cup C04Viol(a2, o2)
 
 EndViol(a, o) == {}
 =============================================================================
